@@ -8,7 +8,8 @@ package rawmessagesfilter
 // filter establishes about a message (this height, not from me) is then what the term's handlers require (FilterOK, C08).
 //@ pred TermWired(t *leanhelixterm.LeanHelixTerm, f *RawMessageFilter) = t != nil && t.ConsensusMessagesFilter != nil && (t.ConsensusMessagesFilter.handler == nil ||
 //@   | (istype(t.ConsensusMessagesFilter.handler, *termincommittee.TermInCommittee) && dyn(t.ConsensusMessagesFilter.handler, *termincommittee.TermInCommittee) != nil
-//@   |  && dyn(t.ConsensusMessagesFilter.handler, *termincommittee.TermInCommittee).State == f.state && dyn(t.ConsensusMessagesFilter.handler, *termincommittee.TermInCommittee).myMemberId == f.myMemberId))
+//@   |  && dyn(t.ConsensusMessagesFilter.handler, *termincommittee.TermInCommittee).State == f.state && dyn(t.ConsensusMessagesFilter.handler, *termincommittee.TermInCommittee).myMemberId == f.myMemberId
+//@   |  && dyn(t.ConsensusMessagesFilter.handler, *termincommittee.TermInCommittee).messageFactory != nil && dyn(t.ConsensusMessagesFilter.handler, *termincommittee.TermInCommittee).messageFactory.instanceId == f.instanceId))
 
 // Delivery of a message to the protocol logic of the current term. The preconditions are the statement of C17
 // (and the FilterOK facts the handlers of C08 rely on); they are obligations at every delivery site of the filter.
